@@ -1,3 +1,4 @@
+import GoSSE.Proofs.GenEquiv
 import GoSSE.Proofs.ParserRange
 import GoSSE.Proofs.ParserPulled
 import GoSSE.Proofs.ParserRun
@@ -118,5 +119,19 @@ example :
       (some (0, 10)) none).2.1 = PErr.unexpectedEOF ∧
     pieceLen [97, 10, 13, 10, 120, 120, 120, 120, 120, 120, 120, 120, 120] 0 = some 4 := by
   decide
+
+
+/-! ### The translated source text (regenerated from /repo on every run) -/
+
+/-- `splitFunc` *as translated from parser.go* — every index and slice expression checked, loops with fuel —
+returns, for every buffer content and both values of `atEOF`, exactly what the model's `splitFunc` returns: it
+never panics (no index or slice out of range), its loop ends within `len(data)+1` iterations, and its error
+result is always nil. The index facts above (`split_indices_in_range`) therefore hold of the source text. -/
+theorem translated_splitFunc_is_model (fuel : Nat) (data : Bytes) (atEOF : Bool) (hf : data.length < fuel) :
+    Gen.splitFunc fuel data atEOF = .ok (((splitFunc data atEOF).1 : Int), (splitFunc data atEOF).2, none) :=
+  GenEquiv.splitFunc_eq fuel data atEOF hf
+
+/-- non-vacuity: the translated function on "a\n\nb" (at EOF) yields the token "a\n\n" with advance 3 -/
+example : Gen.splitFunc 7 [97, 10, 10, 98] true = .ok (3, some [97, 10, 10], none) := by rfl
 
 end GoSSE.Props.C20
